@@ -1,10 +1,541 @@
-(* C09 — lemmas. *)
+(* C09 — lemmas about the metadata model. *)
 From Coq Require Import ZArith List Bool Lia.
 From IBL.C09 Require Import Model.
 Import ListNotations.
 Open Scope Z_scope.
 
-Lemma untilde_no_tilde k : ~ In 126 (untilde k).
+(* ------------------------------------------------------------ generic lists *)
+Lemma forallb_app' {A} (p : A -> bool) a b : forallb p (a ++ b) = forallb p a && forallb p b.
+Proof. apply forallb_app. Qed.
+
+Lemma forallb_impl {A} (p q : A -> bool) l :
+  (forall x, p x = true -> q x = true) -> forallb p l = true -> forallb q l = true.
 Proof.
-  unfold untilde. rewrite filter_In. intros [_ H]. discriminate H.
+  intros H. induction l as [|x l IH]; cbn; [auto|].
+  rewrite !andb_true_iff. intros [Hx Hl]. auto.
+Qed.
+
+Lemma untilde_no_tilde k : ~ In 126 (untilde k).
+Proof. unfold untilde. rewrite filter_In. intros [_ H]. discriminate H. Qed.
+
+(* ------------------------------------------------------------ split / join *)
+Lemma split_by_none p a : forallb (fun c => negb (p c)) a = true -> split_by p a = [a].
+Proof.
+  induction a as [|c a IH]; cbn; [auto|].
+  rewrite andb_true_iff, negb_true_iff. intros [Hc Ha]. rewrite Hc, (IH Ha). reflexivity.
+Qed.
+
+Lemma split_by_app_sep p a c r :
+  forallb (fun c => negb (p c)) a = true -> p c = true ->
+  split_by p (a ++ c :: r) = a :: split_by p r.
+Proof.
+  induction a as [|x a IH]; cbn; intros Ha Hc.
+  - rewrite Hc. reflexivity.
+  - apply andb_true_iff in Ha as [Hx Ha]. apply negb_true_iff in Hx.
+    rewrite Hx, (IH Ha Hc). reflexivity.
+Qed.
+
+Lemma split_by_nonempty p s : split_by p s <> [].
+Proof.
+  destruct s as [|c s]; cbn; [discriminate|].
+  destruct (p c); [discriminate|]. destruct (split_by p s); discriminate.
+Qed.
+
+(* no piece contains a separator *)
+Lemma split_by_pieces p s q : In q (split_by p s) -> forallb (fun c => negb (p c)) q = true.
+Proof.
+  revert q. induction s as [|c s IH]; cbn; intros q Hq.
+  - destruct Hq as [<-|[]]. reflexivity.
+  - destruct (p c) eqn:Hc.
+    + destruct Hq as [<-|Hq]; [reflexivity|auto].
+    + destruct (split_by p s) as [|q0 qs] eqn:E.
+      * destruct Hq as [<-|[]]. cbn. now rewrite Hc.
+      * destruct Hq as [<-|Hq].
+        -- cbn. rewrite Hc. cbn. apply IH. now left.
+        -- apply IH. now right.
+Qed.
+
+(* the pieces spell the text back *)
+Lemma split_by_chars p s q c : In q (split_by p s) -> In c q -> In c s.
+Proof.
+  revert q. induction s as [|x s IH]; cbn; intros q Hq Hc.
+  - destruct Hq as [<-|[]]. destruct Hc.
+  - destruct (p x) eqn:Hx.
+    + destruct Hq as [<-|Hq]; [destruct Hc|]. right. eauto.
+    + destruct (split_by p s) as [|q0 qs] eqn:E.
+      * destruct Hq as [<-|[]]. destruct Hc as [<-|[]]. now left.
+      * destruct Hq as [<-|Hq].
+        -- destruct Hc as [<-|Hc]; [now left|]. right. apply (IH q0); [now left|exact Hc].
+        -- right. apply (IH q); [now right|exact Hc].
+Qed.
+
+Lemma split_on_join c ps :
+  ps <> [] -> Forall (fun q => forallb (fun x => negb (c =? x)) q = true) ps ->
+  split_on c (join [c] ps) = ps.
+Proof.
+  unfold split_on. induction ps as [|a ps IH]; [congruence|]. intros _ H.
+  inversion H as [|? ? Ha Hps]; subst. destruct ps as [|b ps].
+  - cbn. now apply split_by_none.
+  - change (join [c] (a :: b :: ps)) with (a ++ [c] ++ join [c] (b :: ps)).
+    cbn [app]. rewrite split_by_app_sep; [|exact Ha|apply Z.eqb_refl].
+    f_equal. apply IH; [discriminate|exact Hps].
+Qed.
+
+Lemma drop_last_empty_snoc l : drop_last_empty (l ++ [[]]) = l.
+Proof.
+  induction l as [|p r IH]; [reflexivity|].
+  cbn [app]. destruct r as [|p2 r]; [reflexivity|].
+  cbn [drop_last_empty app] in *. now rewrite IH.
+Qed.
+
+Lemma drop_last_empty_In l q : In q (drop_last_empty l) -> In q l.
+Proof.
+  induction l as [|p r IH]; [auto|]. destruct r as [|p2 r].
+  - cbn. destruct (null p); [intros []|auto].
+  - intros [<-|H]; [now left|right; auto].
+Qed.
+
+Definition plain (s : str) : bool := forallb (fun c => negb (is_break c)) s.
+
+Lemma splitlines_plain f l : In l (splitlines f) -> plain l = true.
+Proof. intros H. apply drop_last_empty_In in H. now apply split_by_pieces in H. Qed.
+
+Lemma splitlines_written bodies :
+  Forall (fun b => plain b = true) bodies ->
+  splitlines (concat (map (fun b => b ++ [10]) bodies)) = bodies.
+Proof.
+  intros H. unfold splitlines.
+  assert (E : split_by is_break (concat (map (fun b => b ++ [10]) bodies)) = bodies ++ [[]]).
+  { induction H as [|b bs Hb Hbs IH]; [reflexivity|].
+    cbn [map concat]. rewrite <- app_assoc. cbn [app].
+    rewrite split_by_app_sep; [|exact Hb|reflexivity]. now rewrite IH. }
+  rewrite E. apply drop_last_empty_snoc.
+Qed.
+
+Lemma univ_nl_id s : forallb (fun c => negb (c =? 13)) s = true -> univ_nl s = s.
+Proof.
+  induction s as [|c s IH]; [reflexivity|]. cbn [forallb univ_nl].
+  rewrite andb_true_iff, negb_true_iff. intros [Hc Hs]. rewrite Hc. now rewrite IH.
+Qed.
+
+Lemma univ_nl_no13 s : forallb (fun c => negb (c =? 13)) (univ_nl s) = true.
+Proof.
+  remember (length s) as n eqn:Hn. revert s Hn.
+  induction n as [n IH] using lt_wf_ind. intros s Hn.
+  destruct s as [|c s]; [reflexivity|]. cbn [univ_nl].
+  destruct (c =? 13) eqn:Hc.
+  - cbn [forallb]. cbn. destruct s as [|c2 s2]; [reflexivity|].
+    destruct (c2 =? 10); (eapply IH; [|reflexivity]); cbn [length] in *; lia.
+  - cbn [forallb]. rewrite Hc. cbn. eapply IH; [|reflexivity]. cbn [length] in *; lia.
+Qed.
+
+Lemma break_eq_app k v : forallb (fun c => negb (c =? 61)) k = true ->
+  break_eq (k ++ 61 :: v) = Some (k, v).
+Proof.
+  induction k as [|c k IH]; cbn; [auto|].
+  rewrite andb_true_iff, negb_true_iff. intros [Hc Hk]. now rewrite Hc, (IH Hk).
+Qed.
+
+Lemma break_eq_spec l k v : break_eq l = Some (k, v) ->
+  l = k ++ 61 :: v /\ forallb (fun c => negb (c =? 61)) k = true.
+Proof.
+  revert k. induction l as [|c l IH]; cbn; [discriminate|]. intros k.
+  destruct (Z.eqb_spec c 61) as [->|Hc].
+  - intros [= <- <-]. auto.
+  - destruct (break_eq l) as [[k0 v0]|]; [|discriminate]. intros [= <- <-].
+    destruct (IH k0 eq_refl) as [-> Hk]. split; [reflexivity|]. cbn.
+    rewrite Hk. apply Z.eqb_neq in Hc. now rewrite Hc.
+Qed.
+
+(* ------------------------------------------------------------ decimal digits *)
+Lemma pow10_S s : pow10 (S s) = 10 * pow10 s.
+Proof. unfold pow10. rewrite Nat2Z.inj_succ, Z.pow_succ_r; lia. Qed.
+Lemma pow10_pos s : 0 < pow10 s.
+Proof. unfold pow10. apply Z.pow_pos_nonneg; lia. Qed.
+
+Lemma pow10_0 : pow10 0 = 1. Proof. reflexivity. Qed.
+Lemma pow10_1 : pow10 1 = 10. Proof. reflexivity. Qed.
+Lemma dvalue_single c : dvalue [c] = c - 48.
+Proof. unfold dvalue. cbn [fold_left]. lia. Qed.
+Lemma dvalue_nil : dvalue [] = 0. Proof. reflexivity. Qed.
+
+Lemma dvalue_acc l a :
+  fold_left (fun a c => 10 * a + (c - 48)) l a = a * pow10 (length l) + dvalue l.
+Proof.
+  unfold dvalue. revert a. induction l as [|c l IH]; intros a; cbn [fold_left length].
+  - rewrite pow10_0. lia.
+  - rewrite IH, (IH (10 * 0 + (c - 48))), pow10_S. ring.
+Qed.
+
+Lemma dvalue_app a b : dvalue (a ++ b) = dvalue a * pow10 (length b) + dvalue b.
+Proof.
+  unfold dvalue at 1. rewrite fold_left_app. fold (dvalue a). apply dvalue_acc.
+Qed.
+
+Definition digits (s : str) : bool := forallb is_digit s.
+
+Lemma is_digit_spec c : is_digit c = true <-> 48 <= c <= 57.
+Proof. unfold is_digit. rewrite andb_true_iff, !Z.leb_le. tauto. Qed.
+
+Lemma dvalue_nonneg s : digits s = true -> 0 <= dvalue s.
+Proof.
+  induction s as [|c s IH] using rev_ind; [rewrite dvalue_nil; lia|].
+  unfold digits. rewrite forallb_app. cbn [forallb]. rewrite !andb_true_iff. intros [Hs [Hc _]].
+  rewrite dvalue_app. cbn [length]. rewrite dvalue_single, pow10_1.
+  apply is_digit_spec in Hc. specialize (IH Hs). lia.
+Qed.
+
+Lemma digs_length k n : length (digs k n) = k.
+Proof.
+  revert n. induction k as [|k IH]; intros n; cbn [digs]; [reflexivity|].
+  rewrite app_length, IH. cbn [length]. lia.
+Qed.
+
+Lemma digs_digits k n : digits (digs k n) = true.
+Proof.
+  revert n. induction k as [|k IH]; intros n; cbn [digs]; [reflexivity|].
+  unfold digits. rewrite forallb_app. fold (digits (digs k (n / 10))). rewrite IH. cbn [forallb andb].
+  rewrite andb_true_r. apply is_digit_spec.
+  pose proof (Z.mod_pos_bound n 10 ltac:(lia)). lia.
+Qed.
+
+Lemma dvalue_digs k n : dvalue (digs k n) = n mod pow10 k.
+Proof.
+  revert n. induction k as [|k IH]; intros n.
+  - cbn [digs]. rewrite dvalue_nil, pow10_0. now rewrite Z.mod_1_r.
+  - cbn [digs]. rewrite dvalue_app, IH. cbn [length]. rewrite dvalue_single, pow10_1.
+    rewrite pow10_S. rewrite (Z.rem_mul_r n 10 (pow10 k)); [|lia|apply pow10_pos].
+    lia.
+Qed.
+
+Lemma strip0_value l : dvalue (strip0 l) = dvalue l.
+Proof.
+  induction l as [|c l IH]; [reflexivity|]. cbn [strip0].
+  destruct (Z.eqb_spec c 48) as [->|]; [|reflexivity].
+  rewrite IH. unfold dvalue. reflexivity.
+Qed.
+
+Lemma strip0_digits l : digits l = true -> digits (strip0 l) = true.
+Proof.
+  induction l as [|c l IH]; [auto|]. cbn [strip0]. destruct (c =? 48); [|auto].
+  unfold digits. cbn. rewrite andb_true_iff. intros [_ H]. auto.
+Qed.
+
+Lemma lt_pow10_log2 n : 0 <= n -> n < pow10 (S (Z.to_nat (Z.log2 n))).
+Proof.
+  intros Hn. unfold pow10. rewrite Nat2Z.inj_succ, Z2Nat.id by apply Z.log2_nonneg.
+  destruct (Z.eq_dec n 0) as [->|Hz]; [cbn; lia|].
+  pose proof (Z.log2_spec n ltac:(lia)) as [_ H].
+  pose proof (Z.log2_nonneg n).
+  eapply Z.lt_le_trans; [exact H|]. apply Z.pow_le_mono_l. lia.
+Qed.
+
+Lemma print_nat_value n : 0 <= n -> dvalue (print_nat n) = n.
+Proof.
+  intros Hn. unfold print_nat.
+  pose proof (strip0_value (digs (S (Z.to_nat (Z.log2 n))) n)) as E.
+  rewrite dvalue_digs, Z.mod_small in E by (split; [lia|now apply lt_pow10_log2]).
+  destruct (strip0 _) as [|c l]; [|exact E]. cbn in E. subst n. reflexivity.
+Qed.
+
+Lemma print_nat_digits n : digits (print_nat n) = true.
+Proof.
+  unfold print_nat.
+  pose proof (strip0_digits _ (digs_digits (S (Z.to_nat (Z.log2 n))) n)) as E.
+  destruct (strip0 _); [reflexivity|exact E].
+Qed.
+
+Lemma print_nat_nonempty n : print_nat n <> [].
+Proof. unfold print_nat. destruct (strip0 _); discriminate. Qed.
+
+(* ------------------------------------------------------------ normal form *)
+Definition normd (d : dec) : Prop :=
+  0 <= fst d /\ (snd d = O \/ fst d mod 10 <> 0).
+
+Lemma norm_normd m s : 0 <= m -> normd (norm m s).
+Proof.
+  revert m. induction s as [|s IH]; intros m Hm; cbn [norm].
+  - split; cbn; auto.
+  - destruct (Z.eqb_spec (m mod 10) 0) as [E|E].
+    + apply IH. apply Z.div_pos; lia.
+    + split; cbn; auto.
+Qed.
+
+Lemma norm_fix m s : normd (m, s) -> norm m s = (m, s).
+Proof.
+  intros [_ [H|H]]; cbn in H.
+  - subst s. reflexivity.
+  - destruct s; [reflexivity|]. cbn [norm]. apply Z.eqb_neq in H. now rewrite H.
+Qed.
+
+(* ------------------------------------------------------------ character classes *)
+Lemma digit_not_break c : is_digit c = true -> is_break c = false.
+Proof.
+  unfold is_digit, is_break. intros H.
+  repeat match goal with |- context[?a =? ?b] => destruct (Z.eqb_spec a b) end; try lia; reflexivity.
+Qed.
+Lemma numch_not_break c : numch c = true -> is_break c = false.
+Proof.
+  unfold numch. rewrite !orb_true_iff. intros [[H|H]|H].
+  - now apply digit_not_break.
+  - apply Z.eqb_eq in H. subst. reflexivity.
+  - apply Z.eqb_eq in H. subst. reflexivity.
+Qed.
+Lemma digits_numch s : digits s = true -> forallb numch s = true.
+Proof. apply forallb_impl. intros c H. unfold numch. now rewrite H. Qed.
+Lemma numch_plain s : forallb numch s = true -> plain s = true.
+Proof. apply forallb_impl. intros c H. now rewrite (numch_not_break c H). Qed.
+Lemma digits_no c s : is_digit c = false -> digits s = true ->
+  forallb (fun x => negb (c =? x)) s = true.
+Proof.
+  intros Hc. apply forallb_impl. intros x Hx.
+  destruct (Z.eqb_spec c x) as [->|]; [congruence|reflexivity].
+Qed.
+Lemma digits_count46 s : digits s = true -> count 46 s = 0.
+Proof.
+  unfold count. induction s as [|c s IH]; [reflexivity|]. unfold digits. cbn [forallb filter].
+  rewrite andb_true_iff. intros [Hc Hs].
+  destruct (Z.eqb_spec 46 c) as [<-|]; [discriminate|]. now apply IH.
+Qed.
+Lemma count_app c a b : count c (a ++ b) = count c a + count c b.
+Proof. unfold count. rewrite filter_app, app_length. lia. Qed.
+
+(* ------------------------------------------------------------ printed numbers parse back *)
+Definition dd (s : str) : bool := forallb (fun c => is_digit c || (c =? 46)) s.
+Definition dc (s : str) : bool := forallb (fun c => is_digit c || (c =? 44)) s.
+
+Lemma digits_dd s : digits s = true -> dd s = true.
+Proof. apply forallb_impl. intros c H. now rewrite H. Qed.
+Lemma digits_dc s : digits s = true -> dc s = true.
+Proof. apply forallb_impl. intros c H. now rewrite H. Qed.
+Lemma dd_numch s : dd s = true -> forallb numch s = true.
+Proof.
+  apply forallb_impl. intros c H. unfold numch. apply orb_true_iff in H as [H|H]; rewrite H;
+    [reflexivity|apply orb_true_r].
+Qed.
+Lemma dc_numch s : dc s = true -> forallb numch s = true.
+Proof.
+  apply forallb_impl. intros c H. unfold numch. apply orb_true_iff in H as [H|H]; rewrite H;
+    [reflexivity|]. now rewrite orb_true_r.
+Qed.
+Lemma dd_no44 s : dd s = true -> forallb (fun x => negb (44 =? x)) s = true.
+Proof.
+  apply forallb_impl. intros c H. destruct (Z.eqb_spec 44 c) as [<-|]; [discriminate|reflexivity].
+Qed.
+Lemma dc_count46 s : dc s = true -> count 46 s = 0.
+Proof.
+  unfold count. induction s as [|c s IH]; [reflexivity|]. unfold dc. cbn [forallb filter].
+  rewrite andb_true_iff. intros [Hc Hs].
+  destruct (Z.eqb_spec 46 c) as [<-|]; [discriminate|]. now apply IH.
+Qed.
+
+Lemma dd_pieces_digits p q : dd p = true -> In q (split_on 46 p) -> digits q = true.
+Proof.
+  intros Hp Hq. unfold digits. apply forallb_forall. intros c Hc.
+  pose proof (split_by_pieces _ _ _ Hq) as H1. rewrite forallb_forall in H1.
+  specialize (H1 c Hc). apply negb_true_iff in H1.
+  pose proof (split_by_chars _ _ _ _ Hq Hc) as H2.
+  unfold dd in Hp. rewrite forallb_forall in Hp. specialize (Hp c H2).
+  apply orb_true_iff in Hp as [H|H]; [exact H|]. apply Z.eqb_eq in H. subst c. discriminate.
+Qed.
+
+Lemma parse_float_normd p d : parse_float p = Some d -> normd d.
+Proof.
+  unfold parse_float. destruct (forallb _ p) eqn:Hdd; [|discriminate]. fold (dd p) in Hdd.
+  pose proof (dd_pieces_digits p) as Hq. specialize (fun q => Hq q Hdd).
+  destruct (split_on 46 p) as [|a [|b [|? ?]]]; try discriminate.
+  - destruct (null a); [discriminate|]. intros [= <-]. apply (norm_normd (dvalue a) O), dvalue_nonneg, Hq. now left.
+  - destruct (null a && null b); [discriminate|]. intros [= <-]. apply norm_normd, dvalue_nonneg.
+    unfold digits. rewrite forallb_app. fold (digits a) (digits b).
+    rewrite (Hq a), (Hq b); cbn; auto.
+Qed.
+
+Lemma print_dec_dd d : dd (print_dec d) = true.
+Proof.
+  destruct d as [m [|s]]; unfold print_dec.
+  - apply digits_dd, print_nat_digits.
+  - unfold dd. rewrite !forallb_app. fold (dd (print_nat (m / pow10 (S s)))).
+    rewrite digits_dd by apply print_nat_digits.
+    fold (dd (digs (S s) (m mod pow10 (S s)))). rewrite digits_dd by apply digs_digits. reflexivity.
+Qed.
+
+Lemma print_dec_nonempty d : print_dec d <> [].
+Proof.
+  destruct d as [m [|s]]; unfold print_dec; [apply print_nat_nonempty|].
+  pose proof (print_nat_nonempty (m / pow10 (S s))). destruct (print_nat _); [congruence|discriminate].
+Qed.
+
+Lemma print_dec_count d : count 46 (print_dec d) <? 2 = true.
+Proof.
+  destruct d as [m [|s]]; unfold print_dec.
+  - rewrite digits_count46 by apply print_nat_digits. reflexivity.
+  - rewrite !count_app, !digits_count46 by (apply print_nat_digits || apply digs_digits). reflexivity.
+Qed.
+
+Lemma parse_float_print d : normd d -> parse_float (print_dec d) = Some d.
+Proof.
+  intros Hn. unfold parse_float. pose proof (print_dec_dd d) as Hdd. unfold dd in Hdd. rewrite Hdd.
+  destruct d as [m s]. pose proof Hn as [Hm _]. cbn [fst] in Hm. unfold print_dec. destruct s as [|s'].
+  - unfold split_on. rewrite split_by_none by (apply digits_no; [reflexivity|apply print_nat_digits]).
+    destruct (print_nat m) eqn:E; [now apply print_nat_nonempty in E|].
+    cbn [null]. rewrite <- E, print_nat_value by exact Hm. reflexivity.
+  - set (p := pow10 (S s')). assert (Hp : 0 < p) by apply pow10_pos.
+    set (a := print_nat (m / p)). set (b := digs (S s') (m mod p)).
+    change (a ++ [46] ++ b) with (a ++ 46 :: b). unfold split_on.
+    rewrite split_by_app_sep; [|apply digits_no; [reflexivity|apply print_nat_digits]|reflexivity].
+    rewrite split_by_none by (apply digits_no; [reflexivity|apply digs_digits]).
+    destruct a eqn:E; [now apply print_nat_nonempty in E|]. cbn [null andb]. rewrite <- E.
+    rewrite dvalue_app. subst a b. rewrite digs_length, dvalue_digs, print_nat_value
+      by (apply Z.div_pos; lia).
+    fold p. rewrite Z.mod_mod by lia.
+    replace (m / p * p + m mod p) with m by (pose proof (Z.div_mod m p ltac:(lia)); lia).
+    now rewrite norm_fix.
+Qed.
+
+Lemma print_int_nonneg z : 0 <= z -> print_int z = print_nat z.
+Proof. intros H. unfold print_int. destruct (Z.ltb_spec z 0); [lia|reflexivity]. Qed.
+
+(* ------------------------------------------------------------ values *)
+Definition val_ok (v : value) : Prop :=
+  match v with
+  | VStr s => numeric s = false /\ plain s = true
+  | VNum d => normd d
+  | VList l => (2 <= length l)%nat /\ Forall normd l
+  | VInt _ | VNone => False
+  end.
+(* the property's grammar: lists hold integers *)
+Definition int_lists_val (v : value) : Prop :=
+  match v with VList l => Forall (fun d => snd d = O) l | _ => True end.
+
+Lemma mapM_length {A B} (f : A -> option B) l r : mapM f l = Some r -> length r = length l.
+Proof.
+  revert r. induction l as [|a l IH]; cbn; intros r.
+  - intros [= <-]. reflexivity.
+  - destruct (f a); [|discriminate]. destruct (mapM f l); [|discriminate].
+    intros [= <-]. cbn. now rewrite (IH l0 eq_refl).
+Qed.
+Lemma mapM_Forall {A B} (f : A -> option B) (P : B -> Prop) l r :
+  (forall a b, f a = Some b -> P b) -> mapM f l = Some r -> Forall P r.
+Proof.
+  intros H. revert r. induction l as [|a l IH]; cbn; intros r.
+  - intros [= <-]. constructor.
+  - destruct (f a) eqn:E; [|discriminate]. destruct (mapM f l); [|discriminate].
+    intros [= <-]. constructor; eauto.
+Qed.
+Lemma mapM_map {A B C} (g : C -> A) (f : A -> option B) (h : C -> B) l :
+  (forall c, In c l -> f (g c) = Some (h c)) -> mapM f (map g l) = Some (map h l).
+Proof.
+  induction l as [|c l IH]; intros H; cbn; [reflexivity|].
+  rewrite (H c (or_introl eq_refl)), IH; [reflexivity|]. intros; apply H; now right.
+Qed.
+
+Lemma split_by_length p s : (1 <= length (split_by p s))%nat.
+Proof. pose proof (split_by_nonempty p s). destruct (split_by p s); [congruence|cbn; lia]. Qed.
+
+Lemma parse_value_ok v x : plain v = true -> parse_value v = Some x -> val_ok x.
+Proof.
+  intros Hp. unfold parse_value. destruct (numeric v) eqn:Hn.
+  - destruct (mapM parse_float (split_on 44 v)) as [l|] eqn:E; [|discriminate].
+    pose proof (mapM_length _ _ _ E) as HL.
+    pose proof (mapM_Forall _ normd _ _ parse_float_normd E) as HF.
+    pose proof (split_by_length (Z.eqb 44) v) as H1. unfold split_on in HL.
+    destruct l as [|d [|d2 l]]; intros [= <-]; cbn [val_ok].
+    + cbn in HL. lia.
+    + now inversion HF.
+    + split; [cbn; lia|exact HF].
+  - intros [= <-]. cbn. auto.
+Qed.
+
+Lemma numeric_print_dec d : numeric (print_dec d) = true.
+Proof.
+  unfold numeric. rewrite print_dec_count, dd_numch by apply print_dec_dd.
+  pose proof (print_dec_nonempty d). destruct (print_dec d); [congruence|reflexivity].
+Qed.
+
+Lemma parse_value_num d : normd d -> parse_value (print_dec d) = Some (VNum d).
+Proof.
+  intros Hn. unfold parse_value. rewrite numeric_print_dec. unfold split_on.
+  rewrite split_by_none by (apply dd_no44, print_dec_dd).
+  cbn [mapM]. now rewrite parse_float_print.
+Qed.
+
+Lemma join_dc ps : Forall (fun q => digits q = true) ps -> dc (join [44] ps) = true.
+Proof.
+  induction 1 as [|a ps Ha Hps IH]; [reflexivity|]. destruct ps as [|b ps].
+  - cbn. now apply digits_dc.
+  - change (join [44] (a :: b :: ps)) with (a ++ [44] ++ join [44] (b :: ps)).
+    unfold dc. rewrite !forallb_app. fold (dc a) (dc (join [44] (b :: ps))).
+    rewrite digits_dc, IH by assumption. reflexivity.
+Qed.
+
+Lemma parse_value_ints zs : (2 <= length zs)%nat -> Forall (fun z => 0 <= z) zs ->
+  parse_value (join [44] (map print_nat zs)) = Some (VList (map (fun z => (z, O)) zs)).
+Proof.
+  intros HL Hz. set (ps := map print_nat zs).
+  assert (Hd : Forall (fun q => digits q = true) ps).
+  { apply Forall_forall. intros q Hq. apply in_map_iff in Hq as [z [<- _]]. apply print_nat_digits. }
+  pose proof (join_dc ps Hd) as Hdc.
+  assert (Hne : join [44] ps <> []).
+  { destruct zs as [|z zs]; [cbn in HL; lia|]. subst ps. cbn [map].
+    pose proof (print_nat_nonempty z). destruct (map print_nat zs); cbn; destruct (print_nat z); cbn; congruence. }
+  unfold parse_value, numeric.
+  rewrite dc_numch, dc_count46 by exact Hdc.
+  destruct (join [44] ps) eqn:E; [congruence|]. cbn [null negb andb Z.ltb Z.compare]. rewrite <- E.
+  rewrite split_on_join.
+  - subst ps. rewrite (mapM_map print_nat parse_float (fun z => (z, O))).
+    + destruct zs as [|z1 [|z2 zs]]; cbn in HL; try lia. reflexivity.
+    + intros z Hin. rewrite Forall_forall in Hz.
+      apply (parse_float_print (z, O)). split; cbn; auto.
+  - destruct zs; [cbn in HL; lia|discriminate].
+  - eapply Forall_impl; [|exact Hd]. intros q Hq. cbn beta. now apply digits_no.
+Qed.
+
+Lemma dec_trunc_int d : snd d = O -> dec_trunc d = fst d.
+Proof. destruct d as [m s]. cbn. intros ->. unfold dec_trunc, pow10. cbn. apply Z.div_1_r. Qed.
+
+Lemma show_list_plain l : plain (show_value (VList l)) = true.
+Proof.
+  cbn [show_value]. apply numch_plain.
+  assert (H : forall ps, Forall (fun q => forallb numch q = true) ps -> forallb numch (join [44] ps) = true).
+  { induction 1 as [|a ps Ha Hps IH]; [reflexivity|]. destruct ps as [|b ps]; [exact Ha|].
+    change (join [44] (a :: b :: ps)) with (a ++ [44] ++ join [44] (b :: ps)).
+    rewrite !forallb_app, Ha, IH. reflexivity. }
+  (* print_int of a truncation: digits, possibly after a minus sign that never occurs; keep it simple *)
+Abort.
+
+(* re-reading a written canonical value gives it back *)
+Lemma parse_show v : val_ok v -> int_lists_val v ->
+  parse_value (show_value v) = Some v /\ plain (show_value v) = true.
+Proof.
+  destruct v as [s|d|l|z|]; cbn [val_ok int_lists_val show_value]; try tauto.
+  - intros [Hn Hp] _. unfold parse_value. now rewrite Hn.
+  - intros Hn _. split; [now apply parse_value_num|].
+    apply numch_plain, dd_numch, print_dec_dd.
+  - intros [HL HF] HI.
+    assert (E : map (fun x => print_int (dec_trunc x)) l = map print_nat (map fst l)).
+    { rewrite map_map. apply map_ext_in. intros x Hx. rewrite Forall_forall in HF, HI.
+      rewrite dec_trunc_int by auto. apply print_int_nonneg, HF, Hx. }
+    rewrite E.
+    assert (Hz : Forall (fun z => 0 <= z) (map fst l)).
+    { apply Forall_forall. intros z Hz. apply in_map_iff in Hz as [x [<- Hx]].
+      rewrite Forall_forall in HF. apply HF, Hx. }
+    split.
+    + rewrite parse_value_ints; [|now rewrite map_length|exact Hz].
+      do 2 f_equal. rewrite map_map. rewrite <- (map_id l) at 2. apply map_ext_in.
+      intros [m s] Hx. rewrite Forall_forall in HI. specialize (HI _ Hx). cbn in *. now subst.
+    + apply numch_plain, dc_numch, join_dc. apply Forall_forall. intros q Hq.
+      apply in_map_iff in Hq as [z [<- _]]. apply print_nat_digits.
+Qed.
+
+(* the two derived entries are written as text that parses (to something) *)
+Lemma parse_show_int z : exists x, parse_value (print_int z) = Some x /\ plain (print_int z) = true.
+Proof.
+  unfold print_int. destruct (Z.ltb_spec z 0).
+  - exists (VStr (45 :: print_nat (- z))). split.
+    + unfold parse_value, numeric. cbn [forallb null negb andb]. reflexivity.
+    + unfold plain. cbn [forallb]. change (negb (is_break 45)) with true. cbn [andb].
+      apply numch_plain, digits_numch, print_nat_digits.
+  - exists (VNum (z, O)). split.
+    + apply (parse_value_num (z, O)). split; cbn; auto.
+    + apply numch_plain, digits_numch, print_nat_digits.
 Qed.
